@@ -161,6 +161,10 @@ func (w *World) addFile(cf *ContractFile) {
 		}
 		key := pkg + "." + t.Name + "." + g.Name
 		g.Pkg = cf.PkgPath
+		g.CF = cf
+		if _, loaded := w.typesPkgs[pkg]; !loaded {
+			continue // the owning package is not part of this load: the ghost field cannot be referenced
+		}
 		w.ghostSrc[key] = g
 	}
 }
